@@ -119,7 +119,7 @@ PROP_SUITES = {"C01": ["qwt"], "C03": ["wt"], "C04": ["utils", "qvector", "bitve
                "C05": ["rsq"], "C06": ["rsbin"], "C07": ["darray"], "C08": ["bitvector"], "C09": ["qwt", "hqwt"],
                "C10": ["qvector", "bitvector", "qwt", "wt", "hqwt", "rsq", "rsbin", "darray"], "C12": ["qvector", "bitvector", "qwt", "wt", "hqwt"],
                "C13": ["qvector"], "C17": ["utils"], "C19": ["bitvector", "qwt", "wt", "hqwt", "rsq", "rsbin", "darray"]}
-DIFF_SECONDS = {"quick": 6, "thorough": 45}
+DIFF_SECONDS = {"quick": 10, "thorough": 60}
 
 
 def differential_obligations(prop, tier, seed):
